@@ -91,8 +91,10 @@ FRICTIONS_BARE = ['CTD', 'UCTD']
 RE = {'lam': 300.0, 'trans': 3000.0, 'turb': 50000.0}
 FLOWS = ['lam', 'trans', 'turb']
 STEPS = {'limit': None, 'half': 'half', 'mm3': 0.003, 'cap1cm': 0.01,
-         'dyadic': 0.00390625, 'mm1.25': 0.00125}
-STEP_CASES = ['limit', 'half', 'mm3', 'cap1cm', 'dyadic', 'mm1.25']
+         'dyadic': 0.00390625, 'mm1.25': 0.00125,
+         # 150 steps end 5 nm below the core top: a last step of 5 nm (a real distance, not round-off)
+         'nm-short': 0.001999999967}
+STEP_CASES = ['limit', 'half', 'mm3', 'cap1cm', 'dyadic', 'mm1.25', 'nm-short']
 GRID_CASES = ['plane', 'inside', 'inlet', 'outlet', 'two', 'fixed3', 'fixed3-desc']
 MESH_DEPENDENT = ('plane', 'inside', 'two')
 N_GRIDS = {'none': 0, 'plane': 1, 'inside': 1, 'inlet': 1, 'outlet': 1, 'two': 2, 'fixed3': 3, 'fixed3-desc': 3}
